@@ -100,6 +100,17 @@ def run(seed, tier, replay=None):
         c1 = c2 if m1 != m2 else rng.choice([0.9, 0.1])
         plan.append((m2, n, c2))
         prime[len(plan) - 1] = (m1, c1)
+    # ---- history pairs on ONE generator object: first an ld call for another sample size (larger or smaller, either ld method), then the
+    # judged call with the same generator object, which is by then in a later state.  Its band must still have the nominal coverage
+    # (uniforms kept from the earlier call and re-used, a table keyed without n, ...).
+    prime_same = {}
+    for j in range(4 if tier == "quick" else 16):
+        m2 = ("ld_equal_tailed", "ld_highest_density")[j % 2]
+        m1 = rng.choice(["ld_equal_tailed", "ld_highest_density"])
+        n = rng.choice([2, 3, 5])
+        n1 = n + rng.choice([1, 2, 3]) if j % 4 < 3 else max(2, n - 1)
+        plan.append((m2, n, 0.5))
+        prime_same[len(plan) - 1] = (m1, n1, rng.choice([0.5, 0.9]))
     reqs, meta = [], []
     for pi, (method, n, conf) in enumerate(plan):
         ys = [float(i) for i in range(1, n + 1)]
@@ -118,12 +129,24 @@ def run(seed, tier, replay=None):
                     ED.confidence_bands(ys, c1, a=a, b=b, method=m1, generator=np.random.default_rng(gseed), n_jobs=1)
             except Exception:  # noqa: BLE001  (judged in its own right elsewhere in the plan)
                 pass
+        gen = np.random.default_rng(gseed)
+        if pi in prime_same:
+            m1, n1, c1 = prime_same[pi]
+            inp["preceded_by"] = dict(method=m1, n=n1, confidence=c1, generator_seed=gseed,
+                                      note="the SAME generator object, used first for a sample of another size")
+            rep.count("history=preceded_by_an_ld_call_on_the_same_generator_object(n1 %s n)" % (">" if n1 > n else "<"))
+            try:
+                with warnings.catch_warnings():
+                    warnings.simplefilter("ignore")
+                    ED.confidence_bands([float(i) for i in range(1, n1 + 1)], c1, method=m1, generator=gen, n_jobs=1)
+            except Exception:  # noqa: BLE001  (judged in its own right elsewhere in the plan)
+                pass
         rep.count("method=" + method)
         rep.count("bounds=" + ("finite" if finite else "infinite"))
         try:
             with warnings.catch_warnings():
                 warnings.simplefilter("ignore")
-                lo, pt, hi = ED.confidence_bands(ys, conf, a=a, b=b, method=method, generator=np.random.default_rng(gseed), n_jobs=1)
+                lo, pt, hi = ED.confidence_bands(ys, conf, a=a, b=b, method=method, generator=gen, n_jobs=1)
         except Exception as e:
             rep.violate(what="confidence_bands raised on a valid input", error=repr(e), input=inp, call="EmpiricalDistribution.confidence_bands")
             continue
